@@ -54,6 +54,7 @@ func NewServer(parse ParseFn, options ...OptionFn) (*Server, error) {
 // Server contains options for listening to an address.
 type Server struct {
 	closing         atomic.Bool
+	mu              sync.Mutex // guards the closing transition and the admission of new commands
 	wg              sync.WaitGroup
 	logger          *slog.Logger
 	types           *pgtype.Map
@@ -172,14 +173,31 @@ func (srv *Server) serve(ctx context.Context, conn net.Conn) error {
 	return session.consumeCommands(ctx, conn, reader, writer)
 }
 
-// Close gracefully closes the underlaying Postgres server.
+// Close gracefully closes the underlaying Postgres server. Close returns once
+// all commands that have been started are completed. It is safe to call Close
+// multiple times, also concurrently.
 func (srv *Server) Close() error {
-	if srv.closing.Load() {
-		return nil
+	srv.mu.Lock()
+	if !srv.closing.Load() {
+		srv.closing.Store(true)
+		close(srv.closer)
 	}
+	srv.mu.Unlock()
 
-	srv.closing.Store(true)
-	close(srv.closer)
 	srv.wg.Wait()
 	return nil
+}
+
+// admit registers a new command. False is returned when the server is closing
+// and no new commands should be started.
+func (srv *Server) admit() bool {
+	srv.mu.Lock()
+	defer srv.mu.Unlock()
+
+	if srv.closing.Load() {
+		return false
+	}
+
+	srv.wg.Add(1)
+	return true
 }
